@@ -356,7 +356,8 @@ theorem instanceForHeight_mem {c : Ctrl} {st : Store} {h : Nat} {i : Inst} (hf :
   simp [instanceForHeight, hf]
 
 theorem instanceForHeight_notmem {c : Ctrl} {st : Store} {h : Nat} (hok : HistOk st.hist) (hf : find c.insts h = none) :
-    instanceForHeight c st h = none ∨ ∃ x, x.height = h ∧ instanceForHeight c st h = some (x, false) := by
+    instanceForHeight c st h = none ∨
+    ∃ x, x.height = h ∧ instanceForHeight c st h = some (x, false) ∧ ∃ s0, histGet st.hist h = some s0 ∧ x = s0.inst := by
   unfold instanceForHeight
   rw [hf]
   simp only
@@ -364,7 +365,7 @@ theorem instanceForHeight_notmem {c : Ctrl} {st : Store} {h : Nat} (hok : HistOk
   · left; rfl
   · cases hh : histGet st.hist h with
     | none => left; rfl
-    | some s => right; exact ⟨s.inst, hok h s hh, rfl⟩
+    | some s => right; exact ⟨s.inst, hok h s hh, rfl, s, rfl, rfl⟩
 
 /-- the branch of `UponDecided` when the instance is in memory: nothing changes and nothing is saved (decided before,
     not more signers), or the instance is replaced by a decided one of the same height and saved -/
@@ -392,12 +393,12 @@ theorem decidedBranch_mem {c : Ctrl} {st : Store} {h : Nat} {m : Msg} {i : Inst}
     the save flag is set -/
 theorem decidedBranch_notmem {c : Ctrl} {st : Store} {h : Nat} {m : Msg} (hok : HistOk st.hist) (hf : find c.insts h = none) :
     (decidedBranch c st h m).2 = true ∧
-    ∃ x, x.height = h ∧
+    ∃ x, x.height = h ∧ (x.accepted = none ∨ ∃ s0, histGet st.hist h = some s0 ∧ x = s0.inst) ∧
       (((decidedBranch c st h m).1 = addNew c.insts x ∧
           (x.decided = true ∨ (find (addNew c.insts x) h).isSome = false)) ∨
        ∃ i', i'.height = h ∧ i'.decided = true ∧ (decidedBranch c st h m).1 = replaceInst i' (addNew c.insts x)) := by
-  rcases instanceForHeight_notmem hok hf with hn | ⟨x, hx, hs⟩
-  · refine ⟨?_, ⟨h, m.round, true, false, [m]⟩, rfl, Or.inl ⟨?_, Or.inl rfl⟩⟩
+  rcases instanceForHeight_notmem hok hf with hn | ⟨x, hx, hs, horig⟩
+  · refine ⟨?_, ⟨h, m.round, true, false, [m], none⟩, rfl, Or.inl rfl, Or.inl ⟨?_, Or.inl rfl⟩⟩
     · unfold decidedBranch; rw [hn]
     · unfold decidedBranch; rw [hn]
   · have h2 : (decidedBranch c st h m).2 = true := by
@@ -405,7 +406,7 @@ theorem decidedBranch_notmem {c : Ctrl} {st : Store} {h : Nat} {m : Msg} (hok : 
       rw [hs]
       rcases Bool.eq_false_or_eq_true x.decided with hd | hd <;>
         by_cases hl : longest x.commits m.round m.root < m.signers.length <;> simp [hd, hl]
-    refine ⟨h2, x, hx, ?_⟩
+    refine ⟨h2, x, hx, Or.inr horig, ?_⟩
     by_cases hin : (find (addNew c.insts x) h).isSome = true
     · rcases Bool.eq_false_or_eq_true x.decided with hd | hd
       · by_cases hl : longest x.commits m.round m.root < m.signers.length
@@ -437,7 +438,7 @@ theorem decidedBranch_mem_other {c : Ctrl} {st : Store} {h : Nat} {m : Msg} (hok
       · exact absurd hi' hyh
       · exact hy
   | none =>
-    obtain ⟨_, x, hx, ⟨h1, _⟩ | ⟨i', hi', _, h1⟩⟩ := decidedBranch_notmem (m := m) hok hf
+    obtain ⟨_, x, hx, _, ⟨h1, _⟩ | ⟨i', hi', _, h1⟩⟩ := decidedBranch_notmem (m := m) hok hf
     · rw [h1] at hy
       rcases mem_addNew hy with rfl | hy
       · exact absurd hx hyh
@@ -471,7 +472,7 @@ theorem branch_atTop {c : Ctrl} {st : Store} (top : TopOk c.height c.insts) (hok
     · rw [h1, find_replaceInst_isSome]; exact hold
   | none =>
     have hne := find_none_iff.mp hf
-    obtain ⟨_, x, hx, hcase⟩ := decidedBranch_notmem (m := m) hok hf
+    obtain ⟨_, x, hx, _, hcase⟩ := decidedBranch_notmem (m := m) hok hf
     have hadd : (find (addNew c.insts x) (if c.height < h then h else c.height)).isSome = true := by
       by_cases hge : c.height ≤ h
       · have hall : ∀ y ∈ c.insts, y.height < x.height := by
@@ -515,7 +516,7 @@ theorem CInv.branch {c : Ctrl} {st : Store} (inv : CInv c st) (h : Nat) (m : Msg
       · rw [h1]; exact inv.top.replace' _
     | none =>
       have hne := find_none_iff.mp hf
-      obtain ⟨_, x, hx, hcase⟩ := decidedBranch_notmem (m := m) inv.hist hf
+      obtain ⟨_, x, hx, _, hcase⟩ := decidedBranch_notmem (m := m) inv.hist hf
       have hadd : TopOk (if c.height < h then h else c.height) (addNew c.insts x) := by
         by_cases hlt : c.height < h
         · simp only [hlt, if_true]
@@ -577,43 +578,148 @@ theorem CInv.uponDecided {c : Ctrl} {st : Store} (inv : CInv c st) (h : Nat) (m 
     apply hb.saveFound
     simp only; split <;> omega
 
+theorem instanceForHeight_true {c : Ctrl} {st : Store} {h : Nat} {i : Inst}
+    (hi : instanceForHeight c st h = some (i, true)) : find c.insts h = some i := by
+  unfold instanceForHeight at hi
+  cases hf : find c.insts h with
+  | some j => rw [hf] at hi; simp only [Option.some.injEq, Prod.mk.injEq, and_true] at hi; rw [hi]
+  | none =>
+    rw [hf] at hi
+    simp only at hi
+    cases hfull : c.full
+    · rw [hfull] at hi; simp at hi
+    · rw [hfull] at hi
+      cases hh : histGet st.hist h with
+      | none => rw [hh] at hi; simp at hi
+      | some s0 => rw [hh] at hi; simp at hi
+
+/-- the below-quorum commit path: the controller is untouched, or the in-memory instance of that height — which has an
+    accepted proposal — gets one more commit (and is decided if that completes a quorum) -/
+theorem existingMsg_ctrl (q : Nat) (c : Ctrl) (st : Store) (h : Nat) (m : Msg) :
+    (existingMsg q c st h m).1 = c ∨
+    ∃ i i', find c.insts h = some i ∧ i'.height = h ∧ i.accepted.isSome = true ∧ i'.accepted = i.accepted ∧
+      i'.decided = (i.decided || decide (q ≤ longest (i.commits ++ [m]) m.round m.root)) ∧
+      (existingMsg q c st h m).1 = { c with insts := replaceInst i' c.insts } := by
+  unfold existingMsg
+  split
+  · left; rfl
+  · split
+    · left; rfl
+    · rename_i i inMem hi
+      split
+      · left; rfl
+      · split
+        · left; rfl
+        · split
+          · left; rfl
+          · rename_i root hacc
+            split
+            · left; rfl
+            · split
+              · left; rfl
+              · cases inMem
+                · left; rfl
+                · right
+                  have hf := instanceForHeight_true hi
+                  refine ⟨i, ⟨i.height, i.round, i.decided || decide (q ≤ longest (i.commits ++ [m]) m.round m.root), i.stopped,
+                    i.commits ++ [m], i.accepted⟩, hf, (find_some_height hf : i.height = h), ?_, rfl, rfl, ?_⟩
+                  · rw [hacc]; rfl
+                  · simp
+
+/-- the below-quorum commit path reports a first decision only for an instance (in memory or reloaded) that has an accepted
+    proposal and was not decided -/
+theorem existingMsg_new {q : Nat} {c : Ctrl} {st : Store} {h : Nat} {m : Msg} (hn : (existingMsg q c st h m).2.1 = .new) :
+    ∃ i inMem, instanceForHeight c st h = some (i, inMem) ∧ i.accepted.isSome = true ∧ i.decided = false := by
+  unfold existingMsg at hn
+  split at hn
+  · cases hn
+  · split at hn
+    · cases hn
+    · rename_i i inMem hi
+      split at hn
+      · cases hn
+      · split at hn
+        · cases hn
+        · split at hn
+          · cases hn
+          · rename_i root hacc
+            split at hn
+            · cases hn
+            · split at hn
+              · cases hn
+              · refine ⟨i, inMem, hi, by rw [hacc]; rfl, ?_⟩
+                simp only at hn
+                split at hn
+                · rename_i hc
+                  simp only [Bool.and_eq_true, Bool.not_eq_true'] at hc
+                  exact hc.2
+                · cases hn
+
+theorem existingMsg_height (q : Nat) (c : Ctrl) (st : Store) (h : Nat) (m : Msg) :
+    (existingMsg q c st h m).1.height = c.height ∧ (existingMsg q c st h m).1.full = c.full := by
+  rcases existingMsg_ctrl q c st h m with he | ⟨_, _, _, _, _, _, _, he⟩ <;> rw [he] <;> exact ⟨rfl, rfl⟩
+
+theorem existingMsg_find_isSome (q : Nat) (c : Ctrl) (st : Store) (h : Nat) (m : Msg) (k : Nat) :
+    (find (existingMsg q c st h m).1.insts k).isSome = (find c.insts k).isSome := by
+  rcases existingMsg_ctrl q c st h m with he | ⟨_, i', _, _, _, _, _, he⟩
+  · rw [he]
+  · rw [he]; exact find_replaceInst_isSome i' c.insts k
+
+theorem CInv.existingMsg {c : Ctrl} {st : Store} (inv : CInv c st) (q h : Nat) (m : Msg) :
+    CInv (Heights.existingMsg q c st h m).1 st := by
+  rcases existingMsg_ctrl q c st h m with he | ⟨_, i', _, _, _, _, _, he⟩
+  · rw [he]; exact inv
+  · rw [he]
+    refine ⟨inv.top.replace' i', inv.le, ?_, inv.hist⟩
+    intro a ha hah
+    have := inv.live a ha hah
+    unfold AtTop at this ⊢
+    show (find (replaceInst i' c.insts) c.height).isSome = true
+    rw [find_replaceInst_isSome]; exact this
+
 theorem processMsg_cases (q : Nat) (c : Ctrl) (st : Store) (h : Nat) (m : Msg) (ok : Bool) :
     (processMsg q c st h m ok = (c, st, .err)) ∨
-    (ok = true ∧ q ≤ m.signers.length ∧ processMsg q c st h m ok = uponDecided c st h m) := by
+    (ok = true ∧ q ≤ m.signers.length ∧ processMsg q c st h m ok = uponDecided c st h m) ∨
+    (ok = true ∧ m.signers.length < q ∧
+      processMsg q c st h m ok = ((existingMsg q c st h m).1, st, (existingMsg q c st h m).2.1)) := by
   unfold processMsg
   cases ok
   · left; rfl
   · by_cases hq : m.signers.length < q
-    · left; simp [hq]
-    · right; exact ⟨rfl, by omega, by simp [hq]⟩
+    · right; right; exact ⟨rfl, hq, by simp [hq]⟩
+    · right; left; exact ⟨rfl, by omega, by simp [hq]⟩
 
 theorem CInv.processMsg {c : Ctrl} {st : Store} (inv : CInv c st) (q h : Nat) (m : Msg) (ok : Bool) :
     CInv (Heights.processMsg q c st h m ok).1 (Heights.processMsg q c st h m ok).2.1 := by
-  rcases processMsg_cases q c st h m ok with he | ⟨_, _, he⟩
+  rcases processMsg_cases q c st h m ok with he | ⟨_, _, he⟩ | ⟨_, _, he⟩
   · rw [he]; exact inv
   · rw [he]; exact inv.uponDecided h m
+  · rw [he]; exact inv.existingMsg q h m
 
 /-- the controller part of `ProcessMsg` keeps the invariant against the UNCHANGED store (a failed write) -/
 theorem CInv.processMsg_ctrl {c : Ctrl} {st : Store} (inv : CInv c st) (q h : Nat) (m : Msg) (ok : Bool) :
     CInv (Heights.processMsg q c st h m ok).1 st := by
-  rcases processMsg_cases q c st h m ok with he | ⟨_, _, he⟩
+  rcases processMsg_cases q c st h m ok with he | ⟨_, _, he⟩ | ⟨_, _, he⟩
   · rw [he]; exact inv
   · rw [he]
     have := uponDecided_eq c st h m
     simp only at this
     rw [this]
     exact inv.branch h m
+  · rw [he]; exact inv.existingMsg q h m
 
 theorem processMsg_height_ge (q : Nat) (c : Ctrl) (st : Store) (h : Nat) (m : Msg) (ok : Bool) :
     c.height ≤ (processMsg q c st h m ok).1.height := by
-  rcases processMsg_cases q c st h m ok with he | ⟨_, _, he⟩
+  rcases processMsg_cases q c st h m ok with he | ⟨_, _, he⟩ | ⟨_, _, he⟩
   · rw [he]; exact Nat.le_refl _
   · rw [he]; exact (uponDecided_height_ge _ _ _ _).2
+  · rw [he, (existingMsg_height q c st h m).1]; exact Nat.le_refl _
 
 theorem processMsg_full (q : Nat) (c : Ctrl) (st : Store) (h : Nat) (m : Msg) (ok : Bool) :
     (processMsg q c st h m ok).1.full = c.full := by
-  rcases processMsg_cases q c st h m ok with he | ⟨_, _, he⟩ <;> rw [he]
-  rfl
+  rcases processMsg_cases q c st h m ok with he | ⟨_, _, he⟩ | ⟨_, _, he⟩ <;> rw [he]
+  · rfl
+  · exact (existingMsg_height q c st h m).2
 
 /-! ## LoadHighestInstance -/
 
